@@ -24,6 +24,10 @@ REPO = os.environ.get("VERIF_REPO", "/repo")
 CACHE = os.path.join(VERIF, ".cache")
 GUARD = "kolibrie_verif"
 NPROC = int(os.environ.get("VERIF_JOBS", "16"))
+try:  # development-time throttle (file is not committed): many developers share the machine
+    NPROC = int(open(os.path.join(CACHE, "jobs")).read().strip())
+except Exception:
+    pass
 DEFAULT_SEED = 20260925
 
 # Axioms a property theorem may depend on (standard library only; each is named in DESIGN.md section 5).
@@ -202,8 +206,9 @@ class Ctx:
         self.known_lines = []
         self.streams = {}
         self.thorough = tier == "thorough"
-        os.makedirs(os.path.join(CACHE, "work", prop), exist_ok=True)
-        self.work = os.path.join(CACHE, "work", prop)
+        # per-run scratch directory (several runs of one property may overlap during development)
+        self.work = os.path.join(CACHE, "work", prop, "run%d" % os.getpid())
+        os.makedirs(self.work, exist_ok=True)
         self._known = None
         self._distinct = set()
 
@@ -382,7 +387,7 @@ class Ctx:
         t = time.time()
         hd = os.path.join(VERIF, "harness")
         env = {"CARGO_NET_OFFLINE": "true", "RUSTFLAGS": "--cfg %s" % GUARD,
-               "CARGO_TARGET_DIR": os.path.join(CACHE, "target")}
+               "CARGO_TARGET_DIR": os.path.join(CACHE, "target"), "CARGO_BUILD_JOBS": str(NPROC)}
         lock = os.path.join(hd, "Cargo.lock")
         if not os.path.exists(lock):
             shutil.copy(os.path.join(REPO, "Cargo.lock"), lock)
@@ -474,6 +479,8 @@ class Ctx:
         os.makedirs(os.path.join(VERIF, "evidence"), exist_ok=True)
         with open(os.path.join(VERIF, "evidence", "%s.json" % self.prop), "w") as f:
             json.dump(ev, f, indent=1, default=str)
+        if not lines and os.environ.get("VERIF_KEEP_WORK") != "1":
+            shutil.rmtree(self.work, ignore_errors=True)
         for l in self.known_lines:
             print(l)
         for l in lines:
